@@ -111,7 +111,8 @@ func (pa *patchApplierWO) Delete(key []byte) {
 	if ok, err := pa.db.Has(key); err != nil {
 		pa.err = err
 	} else if !ok {
-		pa.err = pa.db.Put(key, []byte{0})
+		// an empty raw value is the deletion marker; a single 0 byte would mean "present with an empty value"
+		pa.err = pa.db.Put(key, []byte{})
 	}
 }
 
